@@ -372,9 +372,9 @@ func (c *conc) wire(r AReq) wire {
 // seen is the abstraction of what the server did with one request.
 type seen struct {
 	Out     AOut     `json:"out"`
-	Pre     AState   `json:"state_before"`
+	Pre     AState   `json:"state_before"`  // OBSERVED BINDING before / after (what Get / Add last showed the cache to bind)
 	State   AState   `json:"state"`
-	Chg     bool     `json:"changed_cache"` // one of this request's cache operations changed the contents
+	Chg     bool     `json:"changed_cache"` // one of this request's Adds changed the observed binding
 	BoundOK bool     `json:"bound_ok"`      // real sha256(value) == key for every entry of the real cache
 	BoundEx string   `json:"bound_counterexample,omitempty"`
 	Fine    string   `json:"fine"`            // class read from the error message / code (informative)
@@ -533,16 +533,22 @@ func diff(want AOut, wantT AState, got seen) []string {
 	if string(wo) != string(gotOps) {
 		d = append(d, "ops")
 	}
+	// The contents and the recency order of the real cache are not observable
+	// without disturbing them; they are compared through the RESULTS of the
+	// cache operations (ops, above: every Get with hit / miss and value), the
+	// hash-only sweep that ends every tour, and the state identification of
+	// the LRU phase (lru.go). What can be compared here: nothing the public
+	// API has shown the cache to bind may contradict the model's contents.
 	wantT.norm()
-	we, _ := json.Marshal(wantT.Ents)
-	ge, _ := json.Marshal(got.State.Ents)
-	if string(we) != string(ge) {
-		d = append(d, "cache")
+	wantE := map[string]string{}
+	for _, e := range wantT.Ents {
+		wantE[e[0]] = e[1]
 	}
-	wr, _ := json.Marshal(wantT.Order)
-	gr, _ := json.Marshal(got.State.Order)
-	if string(wr) != string(gr) {
-		d = append(d, "order")
+	for _, op := range got.Out.Ops {
+		if t, in := wantE[op.H]; (op.T != none) != in || (in && op.T != t) {
+			d = append(d, "cache")
+			break
+		}
 	}
 	if len(got.Notes) > 0 {
 		d = append(d, "rawquery")
